@@ -1591,6 +1591,7 @@ def eval_uprior(res, cell):
     evaluated positionally and by keyword (the prior's name)."""
     k, pfam, nk = cell["cat"], cell["pfam"], cell["name"]
     comp, ctor, fwd_ref, n, shape, geom, readings, facet = _up_setup(cell)
+    nfacet = facet                                   # (noise verdicts are named by the noise type only)
     facet = "%s,name=%s" % (facet, nk)
     params = tp.user_prior_params(pfam, n, k)
     res.count("uprior:" + cell["prob"])
@@ -1663,7 +1664,7 @@ def eval_uprior(res, cell):
             res.fail("C17|%s|user-prior|exactData,%s" % (comp, facet), "exactData is not the documented operator applied to "
                      "exactSolution when a prior is supplied", family=pfam)
             return
-        pz, var = check_noise(res, comp, facet, build, readings, "user-prior," + facet, light=True)
+        pz, var = check_noise(res, comp, facet, build, readings, "user-prior," + nfacet, light=True)
         if var is None:
             return
     res.state("noise")
